@@ -51,7 +51,7 @@ class Stats:
 class Path:
     """One execution of the function under test: decision prefix + path condition."""
     cur = None
-    timeout_ms = 60000
+    timeout_ms = 120000
 
     def __init__(self, prefix=(), stats=None):
         self.solver = z3.Solver()
@@ -97,6 +97,22 @@ class Path:
         if r == 'unknown':
             self.stats.unknown += 1
         return (r, m) if model else r
+
+    def assuming(self, *extra):
+        """context manager: temporarily add constraints (a case split made by the harness, not by the code under test)"""
+        path = self
+
+        class _Ctx:
+            def __enter__(self_):
+                path.solver.push()
+                for e in extra:
+                    path.solver.add(e)
+                return path
+
+            def __exit__(self_, *a):
+                path.solver.pop()
+                return False
+        return _Ctx()
 
     def check_any(self, diffs, names=None):
         """is any of the z3 Bools `diffs` satisfiable on this path?  Decided one disjunct at a time (after simplification),
